@@ -114,7 +114,40 @@ _math('math_pow_int_negative_or_huge_exponent_is_error', [('b', 'i64'), ('e', 'i
       lambda v: {'a': {'int': str(v['b'])}, 'b': {'int': str(v['e'])}}, lambda v: ('error',), ['math::pow(i64,i64)'])
 MATH = [k for k in KANI if k.startswith('math_')]
 
+for _n, _c in [('time_ts_plus_dur', 't + d is the chrono result or an error when not representable, and (t + d) - d == t'),
+               ('time_dur_plus_ts_commutes', 'd + t == t + d'), ('time_ts_minus_dur', 't - d is the chrono result or an error'),
+               ('time_ts_minus_ts_roundtrip', 't1 - t2 never fails and (t1 - t2) + t2 == t1'), ('time_dur_plus_minus_dur', 'd1 + d2 - d2 == d1 whenever d1 + d2 is representable'),
+               ('time_ordering_is_chronological', 'timestamps compare chronologically')]:
+    KANI[_n] = dict(inject=CV, module='cel_value.rs', fq=f'types::cel_value::verif_kani_time::{_n}', exhaustive=True, functions=['impl Add for CelValue', 'impl Sub for CelValue', 'CelValue::ord'],
+                    claim=_c, vars=None)
+
 PROPS = {
+    'C16': dict(
+        units=['wiring', 'value_arith', 'value_cmp'],
+        kani_quick=[],
+        kani_thorough=['time_ts_plus_dur', 'time_dur_plus_ts_commutes', 'time_ts_minus_dur', 'time_ts_minus_ts_roundtrip', 'time_dur_plus_minus_dur', 'time_ordering_is_chronological'],
+        not_covered=['calendar correctness per IANA zone and DST (chrono / chrono-tz tables, external data)', 'uomConvert (uom internals, floating point chains)',
+                     'in the quick tier the arithmetic is proved over an uninterpreted chrono model (representability = chrono\'s checked_* result); the thorough tier runs the real chrono code under Kani'],
+        assumptions=['chrono checked_add_signed / checked_sub_signed / Duration::checked_add / checked_sub return None exactly when the result is not representable'],
+    ),
+    'C15': dict(
+        units=['wiring'],
+        kani_quick=[],
+        kani_thorough=MATH,
+        not_covered=['the algebra of split/join, trim*, replace, regex semantics: properties of std / regex, not of any rscel function (assumed)',
+                     'replace/remove/trim*/toLower/toUpper/splitWhiteSpace/matches* wrappers and the arity/type rejection of the #[dispatch] entry points (not under contract)',
+                     'pow with exponents >= 4 is checked only for error cases (bounded Kani harness)'],
+        assumptions=[],
+    ),
+    'C14': dict(
+        units=['interp_vm_g5'],
+        kani_quick=[],
+        kani_thorough=CONV,
+        level_text='Numeric conversions: complete Kani proofs over all 64-bit inputs through the real #[dispatch] entry (thorough tier); f-string concatenation: Verus arm contract on the VM. String round trips and non-UTF-8 rejection are std behaviour behind parse/to_string/from_utf8 and are not decided.',
+        not_covered=['int(string(i)) == i and the other string round trips (std parse / Display are mutually inverse: assumed)', 'string(bytes) UTF-8 validation (std::String::from_utf8)',
+                     'type(T(x)) == T', 'the f-string lowering in parse_primary (parser contracts not reached); {{ }} handling in the tokenizer'],
+        assumptions=[],
+    ),
     'C12': dict(
         units=['interp', 'macros', 'interp_vm_g0', 'interp_vm_g7'],
         not_covered=['that 32 frames fit the default stack (a machine resource)', 'JSON -> CelValue equality (serde_json is opaque)',
